@@ -78,33 +78,16 @@ Theorem C18_index_describes_rows_parcels : forall a ix pos, par_wf a -> resolve 
 Proof. exact par_index. Qed.
 Print Assumptions C18_index_describes_rows_parcels.
 
-(* BrainModelAxis.  FULL STATEMENT (as for the other classes, every accepted index) is false of
-   the faithful model: an EMPTY selection is refused (finding S-C18b, see
-   C18_index_describes_rows_brainmodel_refuted).  Proved: every non-empty selection. *)
-Theorem C18_index_describes_rows_brainmodel_partial : forall a ix pos,
-  bm_wf a -> resolve (bm_len a) ix = Ok pos -> pos <> [] ->
+(* BrainModelAxis: full statement since fix 82b9e2d7 (S-C18b) - every accepted index, the
+   empty selection included (the result is then an empty axis without volume and nvertices) *)
+Theorem C18_index_describes_rows_brainmodel : forall a ix pos,
+  bm_wf a -> resolve (bm_len a) ix = Ok pos ->
   exists b, bm_getitem a ix = Ok b /\ bm_wf b
     /\ bm_elements b = select (bm_elem (b_nv a) 0 no_ijk 0) (bm_elements a) pos
     /\ bm_len b = zlen pos
     /\ b_nv b = filter (fun kv => zmem (fst kv) (b_name b)) (b_nv a).
 Proof. exact bm_index. Qed.
-Print Assumptions C18_index_describes_rows_brainmodel_partial.
-
-Theorem C18_brainmodel_empty_selection_refused : forall a ix,
-  resolve (bm_len a) ix = Ok [] -> bm_getitem a ix = Err EVectorize0.
-Proof. exact bm_index_empty. Qed.
-Print Assumptions C18_brainmodel_empty_selection_refused.
-
-Theorem C18_index_describes_rows_brainmodel_refuted :
-  exists a ix, bm_wf a /\ resolve (bm_len a) ix = Ok [] /\ bm_getitem a ix = Err EVectorize0.
-Proof.
-  exists (mkBm [1; 1] [no_ijk; no_ijk] [0; 2] None [(1, 4)]), (ISlice (mkSl (Some 2) None None)).
-  split; [|split; vm_compute; reflexivity].
-  unfold bm_wf. cbn. repeat split; try reflexivity; try discriminate.
-  - intros k [<-|[]]. now left.
-  - constructor; [intros []|constructor].
-Qed.
-Print Assumptions C18_index_describes_rows_brainmodel_refuted.
+Print Assumptions C18_index_describes_rows_brainmodel.
 
 Theorem C18_brainmodel_int : forall a k, bm_wf a ->
   bm_get_element a k = match py_int_index (bm_len a) k with
@@ -127,7 +110,7 @@ Qed.
 Print Assumptions C18_index_errors.
 
 (* every axis the BrainModelAxis constructor returns is well formed (so the hypotheses bm_wf
-   above hold of every axis that exists) *)
+   above hold of every axis that exists, empty ones included) *)
 Theorem C18_brainmodel_constructor_wf : forall name vox vtx v nv a,
   NoDup (keys nv) -> bm_make name vox vtx v nv = Ok a -> bm_wf a.
 Proof. exact bm_make_wf. Qed.
@@ -160,7 +143,7 @@ Print Assumptions C18_concat_brainmodel.
 (* ---------------------------------------------------------------- run-length grouping and its inverse *)
 (* iter_structures: consecutive, gap-free, constant, maximal runs covering the axis; each
    sub-axis describes exactly the rows of its run *)
-Theorem C18_iter_structures : forall a, bm_wf a ->
+Theorem C18_iter_structures : forall a, bm_wf a -> b_name a <> [] ->
   exists R structs, bm_runs a = Ok R /\ chain (b_name a) 0 R /\ maximal R
     /\ bm_iter_structures a = Ok structs
     /\ Forall2 (fun r st => fst (fst st) = fst (fst r) /\ snd (fst st) = snd (fst r) /\ bm_wf (snd st)
@@ -170,14 +153,21 @@ Proof. exact iter_structures_spec. Qed.
 Print Assumptions C18_iter_structures.
 
 (* from_index_mapping (to_mapping a) == a (both ways) with the same element descriptions, for
-   EVERY well-formed (hence non-empty) brain-model axis: any number of structures, any order,
+   EVERY well-formed non-empty brain-model axis: any number of structures, any order,
    the same structure in any number of separate runs *)
-Theorem C18_rle_roundtrip : forall a, bm_wf a ->
+Theorem C18_rle_roundtrip : forall a, bm_wf a -> b_name a <> [] ->
   exists m a', bm_to_mapping a = Ok m /\ bm_from_mapping m = Ok a'
     /\ bm_wf a' /\ bm_eqb a' a = true /\ bm_eqb a a' = true
     /\ bm_elements a' = bm_elements a /\ b_name a' = b_name a /\ b_vol a' = b_vol a.
 Proof. exact bm_rle_roundtrip. Qed.
 Print Assumptions C18_rle_roundtrip.
+
+(* an EMPTY brain-model axis has no structures: iter_structures / to_mapping refuse it
+   (IndexError from self.name[0]), so it cannot be put into a header (axis_wf excludes it) *)
+Theorem C18_empty_brainmodel_has_no_maps : forall a, b_name a = [] ->
+  bm_to_mapping a = Err EIndex /\ bm_iter_structures a = Err EIndex.
+Proof. exact bm_empty_no_maps. Qed.
+Print Assumptions C18_empty_brainmodel_has_no_maps.
 
 (* ---------------------------------------------------------------- header and file *)
 (* Cifti2Header.from_axes(axes).get_axis(i) == axes[i] for every tuple of well-formed axes of
@@ -194,9 +184,8 @@ Print Assumptions C18_header_roundtrip.
    container returns shape, extension 32 and data (C01/C11).  Then loading what was saved
    gives the same data, the same data shape, and axes equal to the ones written.  The XML
    premise is what the correspondence streams E/F measure; it is known to fail for map names /
-   metadata / label names that are empty or have leading or trailing whitespace (S-C18c) and
-   for a LabelAxis row with an empty label table (S-C18d) - inputs kept out of the generators
-   and probed separately. *)
+   metadata / label names that are empty or have leading or trailing whitespace (S-C18c) -
+   inputs kept out of the generators and probed separately. *)
 Theorem C18_file_roundtrip : forall (X D F : Type)
     (to_xml : list (list Z * amap) -> X) (parse_xml : X -> res (list (list Z * amap)))
     (dshape : D -> list Z) (nifti_write : list Z -> X -> D -> F)
@@ -237,13 +226,17 @@ Example C18_nonvacuous :
   /\ (exists m, bm_to_mapping a = Ok m /\ length (mp_models m) = 5%nat /\ bm_from_mapping m = Ok a)
   /\ (exists b, bm_getitem a (IList [-1; 1; 1]) = Ok b
         /\ bm_elements b = [(true, [3], 1); (false, [0;1;0], 2); (false, [0;1;0], 2)])
+  /\ (exists b, bm_getitem a (ISlice (mkSl (Some 5) None None)) = Ok b /\ bm_wf b /\ bm_elements b = []
+        /\ b_vol b = None /\ b_nv b = [])
   /\ (exists b, ser_getitem_slice (mkSer 0 1 5 1) (mkSl None None (Some 2)) = Ok b /\ ser_time b = [0; 2; 4]).
 Proof.
-  cbv zeta. split; [|split; [|split]].
+  cbv zeta. split; [|split; [|split; [|split]]].
   - unfold bm_wf. cbn. repeat split; try reflexivity; try discriminate.
     + intros k [<-|[]]. now left.
     + constructor; [intros []|constructor].
   - eexists. split; [vm_compute; reflexivity|]. split; vm_compute; reflexivity.
   - eexists. split; vm_compute; reflexivity.
+  - eexists. split; [vm_compute; reflexivity|]. split; [|repeat split].
+    unfold bm_wf. cbn. repeat split; try reflexivity; try discriminate; [intros k []|constructor].
   - eexists. split; vm_compute; reflexivity.
 Qed.
